@@ -1,5 +1,5 @@
 (* C03 -- JSON and TOML output decode back to the value that was output (both proved end to end: mapping layer + text
-   layer; TOML re-models the third-party serializer toml-rs 0.5.11 byte for byte; see DESIGN for the YAML status). *)
+   layer; TOML re-models the third-party serializer toml-rs 0.5.11 byte for byte; YAML: the writer (converter + serde_yaml + libyaml emitter) is re-modelled byte for byte and partly proved, see the end). *)
 From Ucg Require Import data.Val data.Json data.MapJson data.Json_Lemmas data.MapJson_Lemmas.
 
 (* text layer: the pretty printer's output is read back by an independent RFC 8259 parser *)
@@ -86,3 +86,82 @@ Theorem toml_nested_table_array_alters :
      toml_parse o = Some (DTab [(b "a", DArr [DTab [(b "b", DInt 1)]; DTab [(b "c", DInt 2)]])])) /\
   spec_data ex_altered = Some (DTab [(b "a", DArr [DTab [(b "b", DInt 1)]; DArr [DTab [(b "c", DInt 2)]]])]).
 Proof. exact Toml_Lemmas.toml_nested_table_array_alters. Qed.
+
+(* ------------------------------------------------------------------ YAML ------------------------------------------------
+   data/Yaml.v: the converter (src/convert/yaml.rs), serde_yaml 0.9.34's serializer and the libyaml emitter it drives (scalar
+   analysis and style selection, the four scalar styles, block mappings / sequences), an independent reader for the block
+   subset written from the YAML 1.2 specification (core schema), and the data the property says must come back.
+   PARTIAL: scalars and flat documents are proved; nested documents, non-ASCII strings and strings with line feeds are tied
+   by the byte correspondence (the model's bytes = the converter's on every generated value) and decided by the independent
+   python decoder.  The statements are in Yaml_*.v; the long ones are re-exported here under their own type. *)
+From Ucg Require data.Yaml data.Yaml_Err data.Yaml_Scalar data.Yaml_Str data.Yaml_Plain data.Yaml_Quote data.Yaml_Doc data.Yaml_Lemmas.
+Module YamlP.
+  Import data.Toml.   (* dfloat *)
+  Import data.Yaml data.Yaml_Err data.Yaml_Scalar data.Yaml_Str data.Yaml_Plain data.Yaml_Quote data.Yaml_Doc data.Yaml_Lemmas.
+
+  (* conversion fails exactly when a constraint value occurs somewhere; the serializer and the emitter never fail *)
+  Theorem to_yaml_error_iff : forall v,
+      (to_yaml v = YErr YEConstraint <-> unrepresentable_yaml v = true) /\
+      ((exists y, to_yaml v = YOk y) <-> unrepresentable_yaml v = false).
+  Proof. exact Yaml_Err.to_yaml_error_iff. Qed.
+
+  Theorem yaml_output_error_iff : forall v,
+      (yaml_output v = YErr YEConstraint <-> unrepresentable_yaml v = true) /\
+      ((exists out, yaml_output v = YOk out) <-> unrepresentable_yaml v = false).
+  Proof. exact Yaml_Err.yaml_output_error_iff. Qed.
+
+  Theorem yaml_emit_total : forall y, exists out, yaml_emit y = YOk out.
+  Proof. exact Yaml_Err.yaml_emit_total. Qed.
+
+  (* a string the reader would resolve as null or a boolean is always quoted; so is the text of every i64 *)
+  Theorem null_bool_quoted : forall s,
+      resolve_plain s = DNull \/ (exists v, resolve_plain s = DBool v) -> needs_quote s = true.
+  Proof. exact Yaml_Quote.null_bool_quoted. Qed.
+
+  (* every integer is written plain and read back as that integer (document, any context) *)
+  Theorem yaml_int_roundtrip : ltac:(let t := type of Yaml_Scalar.yaml_int_roundtrip in exact t).
+  Proof. exact Yaml_Scalar.yaml_int_roundtrip. Qed.
+  (* null / true / false, .nan / .inf / -.inf *)
+  Theorem yaml_scalar_kinds : ltac:(let t := type of Yaml_Scalar.yaml_scalar_kinds in exact t).
+  Proof. exact Yaml_Scalar.yaml_scalar_kinds. Qed.
+  Theorem yaml_float_nonfinite : ltac:(let t := type of Yaml_Scalar.yaml_float_nonfinite in exact t).
+  Proof. exact Yaml_Scalar.yaml_float_nonfinite. Qed.
+  (* an ASCII string without a line feed, as a value or a simple key at any indentation: the style the emitter chooses reads
+     back as the string (quoted styles), or as whatever the core schema resolves the plain text to (plain style) *)
+  Theorem yaml_string_roundtrip_ascii : ltac:(let t := type of Yaml_Plain.yaml_string_roundtrip_ascii in exact t).
+  Proof. exact Yaml_Plain.yaml_string_roundtrip_ascii. Qed.
+  (* identifiers are written plain and read back as strings, as values and as keys *)
+  Theorem yaml_ident_roundtrip : ltac:(let t := type of Yaml_Plain.yaml_ident_roundtrip in exact t).
+  Proof. exact Yaml_Plain.yaml_ident_roundtrip. Qed.
+
+  (* flat documents: a tuple / a list of scalars is written as text that parses to the data of the value *)
+  Theorem yaml_doc_roundtrip_partial : forall fs,
+      fs <> [] -> NoDup (map fst fs) -> forallb simple_vfield fs = true ->
+      exists out d, yaml_output (VTuple fs) = YOk out /\ yaml_parse out = Some d /\ Yaml.spec_data (VTuple fs) = Some d.
+  Proof. exact Yaml_Doc.yaml_doc_roundtrip_partial. Qed.
+
+  Theorem yaml_doc_roundtrip_list_partial : forall l,
+      l <> [] -> forallb simple_val l = true ->
+      exists out d, yaml_output (VList l) = YOk out /\ yaml_parse out = Some d /\ Yaml.spec_data (VList l) = Some d.
+  Proof. exact Yaml_Doc.yaml_doc_roundtrip_list_partial. Qed.
+
+  (* where the property is FALSE of the code: a string the core schema reads as a number although serde_yaml's own number
+     parser overflows on it is left unquoted (known finding C03-yaml-number-like-string) *)
+  Theorem yaml_number_overflow_refuted :
+    yaml_output (VStr (b "1e999")) = YOk (b "1e999" ++ [nl])
+    /\ yaml_parse (b "1e999" ++ [nl]) = Some (DFloat (Toml.DFin false 1 999))
+    /\ ~ yaml_roundtrips (VStr (b "1e999"))
+    /\ yaml_output (VStr (b "0x100000000000000000000000000000000")) = YOk (b "0x100000000000000000000000000000000" ++ [nl])
+    /\ yaml_parse (b "0x100000000000000000000000000000000" ++ [nl]) = Some (DInt (2 ^ 128))
+    /\ ~ yaml_roundtrips (VStr (b "0x100000000000000000000000000000000")).
+  Proof. exact Yaml_Lemmas.yaml_number_overflow_refuted. Qed.
+
+  (* U+2028 / U+2029 outside double quotes: libyaml (YAML 1.1) treats them as line breaks and indents what follows; a YAML 1.2
+     reader, for which they are ordinary characters, reads extra spaces (known finding C03-yaml-ls-ps) *)
+  Theorem yaml_ls_string_refuted :
+    let v := VStr (b "a" ++ ls ++ b "b") in
+    yaml_output v = YOk (b "'a" ++ ls ++ b "  b'" ++ [nl])
+    /\ yaml_parse (b "'a" ++ ls ++ b "  b'" ++ [nl]) = Some (DStr (b "a" ++ ls ++ b "  b"))
+    /\ ~ yaml_roundtrips v.
+  Proof. exact Yaml_Lemmas.yaml_ls_string_refuted. Qed.
+End YamlP.
